@@ -535,3 +535,97 @@ def sibling_pair_programs():
         out.append(("sib2:scalar-type", [["o1", ["bin", "mul", x, ["py", a]]], ["o2", ["bin", "mul", x, ["py", b]]]]))
         out.append(("sib1:scalar-type", [["out", ["bin", "add", ["bin", "mul", x, ["py", a]], ["bin", "mul", x, ["py", b]]]]]))
     return out
+
+
+def symbolic_programs(tier="quick"):
+    """programs over placeholders with symbolic (size-parameter) shapes, using the operations that
+    admit symbolic axes; [(family, outs)]"""
+    def P(name, shape, dt="float64"):
+        return ["ph", name, list(shape), dt]
+    x = P("x", ("n", 3))
+    y = P("y", (3,))
+    z = P("z", ("n",))
+    w = P("w", ("n", "m"))
+    v = P("v", ("m",))
+    w2 = P("w2", ("m", "n"))
+    a2 = P("a2", ("2*n+1",))
+    b2 = P("b2", ("n+1", 2))
+    xi = P("xi", ("n", 3), "int32")
+    progs = []
+
+    def add(fam, t, *more):
+        progs.append((fam, [["out", t], *[[f"o{i}", m] for i, m in enumerate(more)]]))
+    add("elementwise", ["bin", "add", x, y])
+    add("elementwise", ["bin", "mul", x, x])
+    add("elementwise", ["bin", "add", w, v])
+    add("elementwise", ["bin", "sub", w, ["T", w2]])
+    add("elementwise", ["bin", "add", ["bin", "mul", x, ["py", 2.0]], ["fn", "sin", x]])
+    add("elementwise", ["where", ["cmp", "greater", x, ["py", 0.0]], x, ["neg", x]])
+    add("elementwise", ["bin", "add", a2, ["py", 1.0]])
+    add("elementwise", ["bin", "mul", b2, P("c2", (2,))])
+    add("elementwise-int", ["bin", "add", ["bin", "mul", xi, ["py", 3]], ["bin", "mod", xi, ["py", 5]]])
+    add("elementwise", ["mm", "maximum", x, y])
+    add("transpose", ["T", x])
+    add("transpose", ["transpose", w, [1, 0]])
+    add("transpose", ["bin", "add", ["T", w], w2])
+    for k in (-2, -1, 1, 2, 5):
+        add("roll", ["roll", x, k, 0])
+        add("roll", ["roll", z, k, 0])
+    add("roll", ["roll", x, 1, 1])
+    add("roll", ["roll", w, 1, 1])
+    add("roll", ["roll", ["bin", "mul", w, ["py", 2.0]], -1, 0])
+    add("roll", ["roll", a2, 3, 0])
+    for ax in (0, 1, 2):
+        add("stack", ["stack", ax, x, ["bin", "add", x, ["py", 1.0]]])
+    add("stack", ["stack", 0, z, z])
+    add("stack", ["stack", 1, z, ["neg", z]])
+    add("stack", ["stack", 0, w, w, w])
+    add("einsum", ["einsum", "ij,j->i", x, y])
+    add("einsum", ["einsum", "ij,ij->ij", x, x])
+    add("einsum", ["einsum", "ij->ji", w])
+    add("einsum", ["einsum", "ij,j->ij", w, v])
+    add("einsum", ["einsum", "i,i->i", z, z])
+    add("einsum", ["einsum", "ij,jk->ik", w, P("v2", ("m", 3))])
+    add("einsum", ["einsum", "ij,ij->i", x, x])
+    add("einsum", ["matmul", x, y])
+    add("einsum", ["matmul", ["T", x], x])
+    add("einsum", ["einsum", "ij,ji->", w, w2])
+    for op in T.REDOPS:
+        add("reduce-static", ["red", op, x if op not in ("all", "any") else ["cmp", "greater", x, ["py", 0.0]], 1])
+    add("reduce-symbolic", ["red", "sum", x, 0])
+    add("reduce-symbolic", ["red", "sum", w, None])
+    add("reduce-symbolic", ["red", "amax", w, 1])
+    add("reduce-symbolic", ["red", "sum", z, 0])
+    add("reduce-static", ["red", "sum", ["bin", "mul", x, y], [1]])
+    add("creation", ["bin", "add", ["zeros", ["n", 3], "float64"], x])
+    add("creation", ["full", ["n"], 2.5, None])
+    add("creation", ["bin", "mul", ["ones", ["n", "m"], "float64"], w])
+    add("creation", ["zeros", ["n", 3], "int32"])
+    add("broadcast", ["broadcast_to", y, ["n", 3]])
+    add("broadcast", ["broadcast_to", v, ["n", "m"]])
+    add("concat-static-axis", ["concat", 1, x, x])
+    add("concat-static-axis", ["concat", 1, x, ["index", x, [["s", None, None, None], ["s", 1, None, None]]]])
+    add("index-static-axis", ["index", x, [["s", None, None, None], 1]])
+    add("index-static-axis", ["index", x, [["s", None, None, None], ["s", None, None, -1]]])
+    add("index-static-axis", ["index", x, ["...", ["s", 1, 3, None]]])
+    add("index-symbolic-axis", ["index", x, [["s", None, None, None]]])
+    add("index-symbolic-axis", ["index", x, [["s", 1, None, None]]])
+    add("index-symbolic-axis", ["index", x, [["s", None, None, -1]]])
+    add("index-symbolic-axis", ["index", x, [["s", None, None, 2]]])
+    add("index-symbolic-axis", ["index", x, [["s", None, -1, None]]])
+    add("index-symbolic-axis", ["index", z, [["s", None, None, -2]]])
+    add("pad", ["pad", z, 1, 0])
+    add("pad", ["pad", x, [[1, 2], [0, 1]], 0])
+    add("expand", ["expand_dims", z, 0])
+    add("expand", ["expand_dims", x, 1])
+    add("adv-index-static", ["index", x, [["s", None, None, None], ["a", ["dwv", "ia", "int32", [2, 0]]]]])
+    add("multi", ["bin", "add", x, y], ["red", "sum", x, 1], ["T", x])
+    add("multi", ["roll", z, 1, 0], ["stack", 0, z, z])
+    add("size-as-value", ["bin", "mul", x, ["sp", "n"]])
+    add("size-as-value", ["bin", "add", z, ["bin", "mul", ["sp", "n"], ["py", 2]]])
+    add("compose", ["red", "sum", ["roll", ["bin", "mul", x, y], 1, 0], 1])
+    add("compose", ["T", ["stack", 0, ["roll", x, 1, 0], x]])
+    add("compose", ["einsum", "ij,j->i", ["roll", x, -1, 0], ["bin", "add", y, y]])
+    add("compose", ["bin", "add", ["roll", w, 1, 0], ["roll", w, 1, 1]])
+    add("compose", ["roll", ["stack", 0, z, z], 1, 1])
+    return progs
